@@ -211,6 +211,31 @@ func (g *gen) comment(p profile) string {
 			b.WriteString(";")
 		}
 	}
+	// NGINX ends a comment at LF only (ngx_conf_read_token: sharp_comment): a lone CR, a CR at the end (CRLF line ends),
+	// tabs, ';', braces and quotes inside a comment are comment text
+	if g.r.Chance(1, 2) {
+		switch g.r.Intn(9) {
+		case 7: // a backslash at the end of a comment does NOT continue it on the next line
+			b.WriteString(" C:\\" + g.mark() + "\\")
+		case 0:
+			b.WriteString(" previously:\r" + g.mark() + " " + g.mark() + ";")
+		case 1:
+			b.WriteString("\r\t" + g.mark() + ";")
+		case 2:
+			b.WriteString(" {\r" + g.mark() + " " + g.mark() + "; }")
+		case 3:
+			b.WriteString("\r\"" + g.mark() + ";")
+		case 4:
+			b.WriteString("\t" + g.mark() + "\r")
+		case 5:
+			b.WriteString("\r\r" + g.mark() + " " + g.mark())
+		case 6:
+			b.WriteString(" '" + g.mark() + "\r" + g.mark() + ";\r")
+		default:
+			b.WriteString("\r" + g.pick("return", "set", "add_header", "proxy_pass") + " " + g.mark() + ";")
+		}
+		g.feats["comment-cr"] = true
+	}
 	g.feats["comment"] = true
 	return b.String()
 }
